@@ -1,11 +1,16 @@
 """C05 - smodels writer and reader are inverses on the smodels-expressible fragment.
 
-Case: N ext falseAtom <encoded calls>     (see props/calls.py; harness/h_c05.cpp)
-Observation: len bytes... ok  <reader calls> status line nerr
+Case: N e falseAtom <encoded calls>     (see props/calls.py; harness/h_c05.cpp)
+      e = 0/1: clasp extensions off/on, feeding stops at the first refusal
+      e = 2/3: clasp extensions off/on, the caller CATCHES every refusal and continues with the same writer
+Observation: len bytes... ok  [e >= 2: ncalls flag...]  <reader calls> status line nerr
 
 Oracle (implementation only): an independent fragment test + normaliser computes what must come back; a program
 inside the fragment must be written (ok=1), accepted by the reader and equal to the normal form; a program the
 writer has to refuse must give ok=0.
+Continue mode: every call is judged in the context of the calls ACCEPTED before it (must be refused / must be accepted);
+if the accepted calls form a program of the fragment, the text must be re-read (by the real reader AND by the python
+reference reader of props/C07.py) as the normal form of the accepted calls alone: a refused call leaves no trace.
 """
 import random
 from props import calls as K
@@ -23,18 +28,22 @@ def variant_of(c):
     return 'N%d' % c[0]
 
 
+def is_cont(c):
+    return c[1] in (2, 3)
+
+
 def decode(c):
     calls, rest = K.dec_all(c[3:])
-    return c[0], c[1] != 0, c[2], calls
+    return c[0], (c[1] == 3 if is_cont(c) else c[1] != 0), c[2], calls
 
 
-def mk(n, ext, f, calls):
-    return [n, 1 if ext else 0, f] + K.enc_all(calls)
+def mk(n, ext, f, calls, cont=False):
+    return [n, (2 if cont else 0) + (1 if ext else 0), f] + K.enc_all(calls)
 
 
 def describe(c):
     n, ext, f, calls = decode(c)
-    return 'N=%d ext=%d false=%d calls: %s' % (n, ext, f, K.pretty(calls))
+    return 'N=%d ext=%d false=%d%s calls: %s' % (n, ext, f, ' [caller catches refusals and continues]' if is_cont(c) else '', K.pretty(calls))
 
 
 # ---------------------------------------------------------------------------------------------------
@@ -150,7 +159,9 @@ def norm(calls, f):
     out, fh, prio, assume = [], False, 0, []
     for c in calls:
         t = c[0]
-        if t == 2:
+        if t == 'mark-false-atom':      # only used to NAME the shape of the repaired defect d5c8ba1 should it return
+            fh = True
+        elif t == 2:
             fh, prio, assume = False, 0, []
             out.append(c)
         elif t == 4:
@@ -195,13 +206,82 @@ def canon(cs):
     return r
 
 
-def split_obs(obs):
+def split_obs(obs, cont=False):
     ln = obs[0]
     text = obs[1:1 + ln]
     ok = obs[1 + ln]
     tail = obs[2 + ln:]
+    if cont:
+        nf = tail[0]
+        flags = tail[1:1 + nf]
+        if nf < 0 or len(flags) != nf or any(x not in (0, 1) for x in flags):
+            raise ValueError('flags')
+        tail = tail[1 + nf:]
+        ok = (ok, flags)
     cs, rest = K.dec_all(tail[:-3])
     return text, ok, cs, rest, tail[-3:]
+
+
+def reference_reread(text, ext):
+    """python reference smodels reader (props/C07.py, imported read-only); None when it is not available"""
+    try:
+        from props import C07 as R
+        return R.reference(list(text), ext)
+    except Exception:
+        return None
+
+
+def oracle_cont(ext, f, calls, text, ok, flags, got, status):
+    """caller catches refusals and continues: judge every call against the calls accepted before it, then the re-read text
+    against the accepted calls alone (a refused call must leave no trace in the text)"""
+    sig = []
+    if len(flags) != len(calls) or ok != (1 if all(flags) else 0):
+        return ['harness:undecodable-observation']
+    acc, marked, sec, judged, nref = [], [], 0, True, 0
+    for c, fl in zip(calls, flags):
+        kind, why = classify(acc + [c], ext, f)
+        if kind == 'out' and why != 'unterminated-step':
+            judged = False          # left the property's quantifier: correspondence only from here on
+            break
+        if kind == 'refuse':
+            if fl:
+                return sig + ['not-refused:' + why]
+            nref += 1
+            if c[0] == 5 and not c[2] and f != 0 and sec == 0:
+                marked.append(('mark-false-atom',))
+            continue
+        if not fl:
+            # a call the writer has to accept after the accepted calls so far; after an earlier refusal: the refused call left the writer in another state
+            return sig + ['refused-call-left-trace:call-of-the-fragment-refused-after-a-refusal' if nref else 'fragment-call-refused-by-writer']
+        acc.append(c)
+        marked.append(c)
+        sec = 0 if c[0] == 2 else 1 if c[0] == 8 else 2 if c[0] == 10 else sec
+    if not judged:
+        return sig
+    kind, why = classify(acc, ext, f)
+    if kind not in ('in', 'in-probe'):
+        return sig
+    refusals = len(acc) != len(calls)
+    want = canon(norm(acc, f))
+    have = canon(got)
+    ref = reference_reread(text, ext)
+    # one signature whether or not the history contains refusals, so that shrinking drops refused calls that are not needed for the failure;
+    # a refused call that IS needed stays in the replay ("refused-call-left-trace" is added where the trace can be named)
+    if status != 1:
+        sig.append('written-text-rejected-by-reader')
+    elif have != want:
+        if have[1:] == want[1:] and have[0][0] == 1 and want[0][0] == 1:
+            sig.append('init-incremental-flag-differs')
+        elif refusals and have == canon(norm(marked, f)):
+            sig.append('refused-call-left-trace:false-atom-marked-by-refused-sum-rule')
+        else:
+            sig.append('reread-differs-from-accepted-calls')
+    elif ref is not None:
+        rok, rcalls, _ = ref
+        rc = canon(rcalls)
+        if not rok or (rc != want and not (rc[1:] == want[1:] and kind == 'in-probe')):
+            sig.append('reread-differs-from-accepted-calls:python-reference-reader')
+    return sig
 
 
 def oracle(c, obs):
@@ -209,11 +289,13 @@ def oracle(c, obs):
         return ['harness:buffer-size-variant-mismatch']
     n, ext, f, calls = decode(c)
     try:
-        text, ok, got, rest, (status, line, nerr) = split_obs(obs)
+        text, ok, got, rest, (status, line, nerr) = split_obs(obs, is_cont(c))
     except Exception:
         return ['harness:undecodable-observation']
     if rest:
         return ['harness:undecodable-observation']
+    if is_cont(c):
+        return oracle_cont(ext, f, calls, text, ok[0], ok[1], got, status)
     kind, why = classify(calls, ext, f)
     sig = []
     if kind == 'refuse':
@@ -236,9 +318,11 @@ def oracle(c, obs):
 
 def nontrivial(c, obs):
     try:
-        text, ok, got, rest, tail = split_obs(obs)
+        text, ok, got, rest, tail = split_obs(obs, is_cont(c))
     except Exception:
         return False
+    if is_cont(c):
+        ok = ok[0]
     return len(got) > 3 or ok == 0
 
 
@@ -354,6 +438,83 @@ def deviate(rnd, p, ext, f):
     return p, k
 
 
+BAD_CONDS = [[], [-1], [1, 2], [-1, -2], [2, -3, 4], [0]]
+UNSUPPORTED = [(7, [1]), (7, []), (11, 1, 0, 1, 1, []), (11, 2, 4, -1, 0, [1, -2]), (12, 0, 1, []), (12, 1, 2, [3]), (13, 0, 1), (14, 0, b'x'),
+               (15, 1, -1, [0]), (16, 0, [0], []), (17, 1, 0, []), (18, 1, 0, [0], 1, 2)]
+
+
+def r_refused(rnd, ext, f, sec):
+    """one call the writer has to refuse when the step is in section sec (0 rules, 1 symbols, 2 after compute)"""
+    ks = ['outcond', 'outcond', 'unsupported']
+    if sec == 0:
+        ks += ['outcond', 'outcond', 'negbound', 'wchoice', 'wdisj', 'emptyhead-sum']
+        if f == 0:
+            ks += ['emptyhead']
+        if not ext:
+            ks += ['external']
+    if sec >= 1:
+        ks += ['rule', 'wrule']
+    if sec == 2:
+        ks += ['output', 'assume', 'assume']
+    k = rnd.choice(ks)
+    body = [(r_lit(rnd), r_w(rnd)) for _ in range(rnd.choice([0, 1, 2, 3]))]
+    if k == 'outcond':
+        c = (8, r_name(rnd).replace(b'\r', b'r'), rnd.choice(BAD_CONDS))
+        if c[2] == [0]:
+            c = (8, c[1], [-r_atom(rnd)])
+    elif k == 'unsupported':
+        c = rnd.choice(UNSUPPORTED)
+    elif k == 'negbound':
+        c = (5, 0, [r_atom(rnd)], rnd.choice([-1, -2, -INT_MAX - 1]), body)
+    elif k == 'wchoice':
+        c = (5, 1, [r_atom(rnd) for _ in range(rnd.choice([1, 1, 2]))], r_w(rnd), body)
+    elif k == 'wdisj':
+        c = (5, 0, [r_atom(rnd), r_atom(rnd)], r_w(rnd), body)
+    elif k == 'emptyhead-sum':      # f == 0: no false atom; f != 0: refused by the recursive call (shape of the repaired defect d5c8ba1)
+        c = (5, 0, [], r_w(rnd), body) if f == 0 else rnd.choice([(5, 0, [], rnd.choice([-1, -INT_MAX - 1]), body), (5, 1, [], r_w(rnd), body)])
+    elif k == 'emptyhead':
+        c = (4, 0, [], [r_lit(rnd) for _ in range(rnd.choice([0, 1, 3]))])
+    elif k == 'external':
+        c = (9, r_atom(rnd), rnd.randint(0, 3))
+    elif k == 'rule':
+        c = (4, rnd.choice([0, 1]), [r_atom(rnd)], [r_lit(rnd) for _ in range(rnd.choice([0, 1, 3]))])
+    elif k == 'wrule':
+        c = (5, 0, [r_atom(rnd)], r_w(rnd), body)
+    elif k == 'output':
+        c = (8, b'late', [r_atom(rnd)])
+    else:
+        c = (10, [r_lit(rnd) for _ in range(rnd.choice([0, 1, 2]))])
+    return c, k
+
+
+def inject(rnd, p, ext, f, focus=None):
+    """program p of the fragment + 1..4 calls the writer refuses, each at a random position inside a step (the caller catches
+    and continues).  focus='outcond-first': a general output directive as FIRST output of a step, inside the rule section, so that rules /
+    minimize statements / externals follow it; focus='tail': refusals behind the symbols / the compute statement."""
+    p = list(p)
+    kinds = []
+    for _ in range(rnd.choice([1, 1, 2, 3, 4])):
+        begins = [i for i, c in enumerate(p) if c[0] == 2]
+        b = rnd.choice(begins)
+        e = min(i for i, c in enumerate(p) if c[0] == 3 and i > b)
+        first_sym = min([i for i in range(b + 1, e) if p[i][0] in (8, 10)] + [e])
+        if focus == 'outcond-first':
+            pos = rnd.randint(b + 1, first_sym)
+            c, k = (8, rnd.choice([b'x', b'p(1)', b'']), rnd.choice(BAD_CONDS[:5])), 'outcond'
+            tail = [(6, 0, [(r_lit(rnd), r_w(rnd))])] if rnd.random() < 0.5 else []
+            tail += [r_ruledir(rnd, ext, f) for _ in range(rnd.choice([0, 1, 1, 2]))]
+            if ext and rnd.random() < 0.5:
+                tail.append((9, r_atom(rnd), rnd.randint(0, 3)))
+            p[pos:pos] = [c] + tail
+        else:
+            pos = rnd.randint(first_sym, e) if focus == 'tail' else rnd.randint(b + 1, e)
+            sec = 2 if any(x[0] == 10 for x in p[b + 1:pos]) else 1 if any(x[0] == 8 for x in p[b + 1:pos]) else 0
+            c, k = r_refused(rnd, ext, f, sec)
+            p.insert(pos, c)
+        kinds.append(k)
+    return p, '+'.join(sorted(set(kinds)))
+
+
 FIXED = [
     ((False, 0), [(1, False), (2,), (4, 0, [1], [2, -3, 4, -5]), (3,)], 'basic'),
     ((False, 7), [(1, False), (2,), (4, 0, [], [2, -3]), (5, 0, [], 2, [(1, 2), (-2, 0)]), (8, b'a b', [1]), (10, [1, -2]), (3,)], 'false-atom'),
@@ -365,18 +526,47 @@ FIXED = [
 ]
 
 
+FIXED_CONT = [
+    # (ext, false atom), history, kind            - refused calls the caller catches, then continues
+    ((False, 0), [(1, False), (2,), (4, 0, [1], [2]), (8, b'p', [1, 2]), (6, 0, [(1, 2)]), (4, 0, [2], []), (8, b'a', [1]), (10, [1]), (3,)], 'outcond-then-minimize'),
+    ((True, 0), [(1, False), (2,), (4, 0, [1], [2]), (8, b'p', [-1]), (9, 3, 1), (6, 0, [(1, 2)]), (8, b'a', [1]), (3,)], 'outcond-then-external'),
+    ((True, 7), [(1, True), (2,), (8, b'', []), (4, 0, [], [1]), (3,), (2,), (8, b'x', [1, 2]), (9, 2, 3), (8, b'b', [2]), (3,)], 'outcond-first-call-of-step'),
+    ((False, 0), [(1, False), (2,), (7, [1]), (11, 1, 0, 1, 1, []), (4, 0, [1], []), (12, 0, 1, []), (17, 1, 0, []), (5, 0, [1], -1, [(2, 1)]),
+                  (5, 1, [1], 1, [(2, 1)]), (4, 0, [], [1]), (9, 1, 1), (8, b'a', [1]), (4, 0, [2], []), (10, [1]), (10, [2]), (8, b'b', [2]), (3,)], 'every-refusal'),
+    ((False, 7), [(1, False), (2,), (4, 0, [], [1]), (5, 0, [], -1, [(2, 1)]), (10, []), (3,)], 'sum-rule-after-false-atom-used'),
+    ((False, 7), [(1, False), (2,), (4, 0, [1], [2]), (5, 0, [], -1, [(2, 1)]), (3,)], 'regression-sum-rule-marks-false-atom'),
+    ((False, 0), [(1, True), (2,), (4, 0, [1], [2]), (3,)], 'refused-init'),
+]
+
+
 def gen(seed, tier):
     rnd = random.Random(seed * 1000003 + 5)
-    total = {'quick': 2500, 'thorough': 100000, 'search': 5000}.get(tier, 2500)
+    total = {'quick': 3000, 'thorough': 100000, 'search': 5000}.get(tier, 2500)
     out = []
     for (ext, f), p, kind in FIXED:
         for n in SIZES:
             out.append((mk(n, ext, f, p), {'kind': 'fixed-' + kind}))
+    for (ext, f), p, kind in FIXED_CONT:
+        for n in SIZES:
+            out.append((mk(n, ext, f, p, True), {'kind': 'fixed-continue-' + kind}))
     while len(out) < total:
         ext = rnd.random() < 0.5
         f = rnd.choice([0, 0, 1, 7, INT_MAX])
         p = r_prog(rnd, ext, f)
         n = rnd.choice(SIZES)
+        r = rnd.random()
+        if r < 0.40:
+            # the caller catches refusals and continues with the same writer
+            r2 = rnd.random()
+            if r2 < 0.08:
+                out.append((mk(n, ext, f, p, True), {'kind': 'continue-no-refusal'}))
+            elif r2 < 0.16:
+                q, k = deviate(rnd, p, ext, f)
+                out.append((mk(n, ext, f, q, True), {'kind': 'continue-deviation-' + k}))
+            else:
+                q, k = inject(rnd, p, ext, f, 'outcond-first' if r2 < 0.45 else 'tail' if r2 < 0.6 else None)
+                out.append((mk(n, ext, f, q, True), {'kind': 'continue-refused-' + k}))
+            continue
         if rnd.random() < 0.7:
             out.append((mk(n, ext, f, p), {'kind': 'fragment-ext' if ext else 'fragment'}))
         else:
@@ -387,6 +577,7 @@ def gen(seed, tier):
 
 def shrink(case, fails):
     n, ext, f, calls = decode(case)
+    cont = is_cont(case)
     changed = True
     while changed:
         changed = False
@@ -394,26 +585,32 @@ def shrink(case, fails):
             if calls[i][0] in (2, 3):
                 continue
             t = calls[:i] + calls[i + 1:]
-            if fails(mk(n, ext, f, t)):
+            if fails(mk(n, ext, f, t, cont)):
                 calls, changed = t, True
                 break
-    return mk(n, ext, f, calls)
+    return mk(n, ext, f, calls, cont)
 
 
 RULE = ('cases = (BUF_SIZE variant of the reader in {4096,16,32}, clasp extensions on/off, false atom in {0,1,7,2^31-1}, call sequence); '
         'sequences are random programs of the smodels fragment (1-3 steps; normal / choice / disjunctive / cardinality / weight rules with bodies of 0..9 literals in random sign order, '
         'weights 0..2^31-1 incl. 0 and 1-only bodies, minimize statements with negative weights, externals, symbol names of arbitrary bytes, compute statements) left as they are or '
-        'given one deviation the writer has to refuse or that leaves the fragment; non-trivial = the reader delivered more than init/begin/end or the writer refused; distinct = distinct case tuples')
+        'given one deviation the writer has to refuse or that leaves the fragment; 40% of the random cases are CONTINUE-MODE histories (the caller catches every refusal and goes on with the same writer): '
+        'a fragment program plus 1..4 refused calls at random positions of a step (general output directive - also as first output inside the rule section, followed by minimize / rules / externals -, '
+        'project / heuristic / edge / theory, negative bound, weight body with choice / disjunctive head, empty head, external without extensions, rules behind symbols, output / second compute behind the compute statement), '
+        'every call judged against the calls accepted before it and the re-read text against the accepted calls alone; '
+        'non-trivial = the reader delivered more than init/begin/end or the writer refused; distinct = distinct case tuples')
 TRUSTED_BASE = ['coq/C09/Spec.v abstract stream; coq/C07 reader model (tied to the code by C07\'s own correspondence)',
                 'std::ostream operator<< for unsigned / int modelled by Dec.print_nat',
-                'props/C05.py fragment test + normaliser (oracle on the implementation)']
+                'props/C05.py fragment test + normaliser (oracle on the implementation); props/C07.py python reference reader (second opinion on the re-read text in continue mode)']
 ASSUMPTIONS = ['call sequences admitted by the writer\'s documented ordering; values within the C parameter types',
                'reader options: claspExt as the writer\'s, cEdge = cHeuristic = false']
 LEVEL_TEXT = ('Coq model of SmodelsOutput composed with the C07 reader model; machine-checked for ALL call sequences of the fragment '
               '(c05_roundtrip: in_fragment ext f p = true => the writer writes p completely and the reader, claspExt = ext, returns exactly sm_norm f p: every rule kind '
               '1/2/3/5/6/8 incl. false atom, weight 0, bounds, minimize sign normalisation and priority renumbering, symbol table, compute statement B+/B- incl. the false atom, '
               'externals 91/92 with the value coding, any number of incremental steps, extensions on or off, any false atom, bodies of any length); the writer refuses exactly the '
-              'documented cases (c05_refuses); normalised bodies are permutations (c05_perm). Proof route: the written text is the rendering of a laid-out program of C07/Spec.v that is '
+              'documented cases (c05_refuses); normalised bodies are permutations (c05_perm); a caller that catches a refusal and continues: a refused call writes nothing and leaves a state no later call can tell from the '
+              'state before (c05_refused_state, c05_refused_no_trace, c05_obs_eq_step), so for EVERY history the text is the text of the accepted calls alone (c05_continue_accepted) and, if these form a program of the fragment, '
+              'is read back as their normal form (c05_continue_roundtrip). Proof route: the written text is the rendering of a laid-out program of C07/Spec.v that is '
               'layout_ok, in_range and denotes sm_norm p, then c07_complete. The model is tied to the code by differential correspondence (bytes written + reader calls) and the Coq '
               'fragment/normal-form definitions are cross-checked against the independent python normaliser that judges the implementation (c05_spec_matches_oracle).')
 LEVEL_NOTE = ('c05_roundtrip is full over in_fragment (boolean, coq/C05/Spec.v). Excluded from in_fragment, as from the property\'s quantifier: names containing LF/CR/NUL, negative rule-body weights, '
